@@ -1031,8 +1031,8 @@ def _tie_free(a):
     sc = a["sc"]
     if sc.get("op") == "setup":     # only the setup nodes compete in an explicit setup() run
         vals = [a["table"]["n%d" % i] for i, s_ in enumerate(sc["specs"]) if s_.get("setup")]
-    else:
-        vals = list(a["table"].values())
+    else:               # the nodes that compete: constants' holders are precomputed and never scheduled
+        vals = [a["table"]["n%d" % i] for i in range(sc["n"])]
     return len(set(vals)) == len(vals)
 
 
